@@ -799,8 +799,9 @@ func (e *Engine) intrinsic(fi *FnInfo) *Native {
 			return nil
 		})
 	case "vfArmTimers":
+		// contexts with a deadline created while armed may expire at any scheduling point
 		return simple(func(e *Engine, s *State, gi int, args []Value) Value {
-			s.timers = true
+			s.timers = len(args) == 0 || args[0].(*Term).IsTrue()
 			return nil
 		})
 	case "vfNote":
